@@ -174,7 +174,26 @@ static void c11Field(W& w, const tbl::Cls<T>& c, size_t fi, int onlyBg = -1, int
             for (auto& x : c.fields)
                 g0.push_back(x.get(base));
             Bytes raw0 = c.raw ? c.raw(base) : Bytes{};
-            for (uint64_t v : vals)
+            // values relative to what the field holds now: the same value (redundant write), its low k bits for every k (a
+            // "skip redundant write" shortcut that compares through a narrower view), every single bit flipped, the complement
+            std::vector<uint64_t> rel;
+            if (!single && f.values.empty() && f.bits > 1)
+            {
+                const uint64_t cur = g0[fi], m = maskBits(f.bits);
+                rel.push_back(cur & m);
+                rel.push_back(~cur & m);
+                for (int k = 1; k < f.bits; ++k)
+                {
+                    rel.push_back(cur & maskBits(k));
+                    rel.push_back((cur & ~maskBits(k)) & m);
+                }
+                if (f.bits > 16)
+                    for (int b = 0; b < f.bits; ++b)
+                        rel.push_back((cur ^ (1ull << b)) & m);
+            }
+            std::vector<uint64_t> allVals = vals;
+            allVals.insert(allVals.end(), rel.begin(), rel.end());
+            for (uint64_t v : allVals)
             {
                 auto desc = [&] { return ofmt("k=c11;cls=%s;fld=%s;bg=%d;extra=%d;v=%llx", c.name.c_str(), f.name.c_str(), bg, extra, (unsigned long long) v); };
                 if (!single && !w.begin_case(desc))
